@@ -41,6 +41,8 @@ ASSUMPTIONS = [
     'filters, population densities and transforms: references of C12 / C05',
     'covariate models around pooled / heterogeneous parts are generated '
     '(they are constructible)',
+    'at whole-numbered points the float64 evaluation (validated by the reference elsewhere) is the oracle for the other input forms; gradients next to a non-finite score are not compared',
+    'log-normal filters are used with noise on the log scale (keeps simulated values positive; see KF-C12-lognormal-filter-nonpositive)',
 ]
 ANCHORS = [
     'chi._log_pdfs.PopulationFilterLogPosterior.__call__',
